@@ -206,6 +206,9 @@ def numeric_failures(doc64, prefixes, tol=1e-6):
                 bad.append((ob["name"], label, l, r))
             elif abs(l - r) > tol * scale:
                 bad.append((ob["name"], label, l, r))
+        for (label, l, op, r) in ob.get("ineqs", []):
+            if isinstance(l, (int, float)) and isinstance(r, (int, float)) and op == "<=" and l > r + tol * max(1.0, abs(l), abs(r)):
+                bad.append((ob["name"], label, l, r))
     for (name, holds, detail) in doc64["out"]["facts"]:
         if (any(name.startswith(p) for p in prefixes) or name == "no_panic") and not holds:
             bad.append((name, detail, "fact", "false"))
@@ -273,6 +276,191 @@ class Encoded:
         return v
 
 
+
+def _pc_holds_numerically(arena, doc):
+    """the recorded decisions evaluated in floating point at the recorded inputs: (number violated beyond rounding, total)"""
+    val = arena.float_values(doc["vars"])
+    bad = 0
+    for (a, op, b, o) in doc["trace"]:
+        x, y = val[a], val[b]
+        if x is None or y is None:
+            continue
+        tol = 1e-9 * max(1.0, abs(x), abs(y))
+        ok = {">": x > y - tol, ">=": x >= y - tol, "<": x < y + tol, "<=": x <= y + tol, "=": abs(x - y) <= tol, "!=": True}.get(op, True)
+        ok_neg = {">": x <= y + tol, ">=": x < y + tol, "<": x >= y - tol, "<=": x > y - tol, "=": True, "!=": abs(x - y) <= tol}.get(op, True)
+        if not (ok if o else ok_neg):
+            bad += 1
+    return bad, len(doc["trace"])
+
+
+def select_decisions(arena, trace, free, limit=250):
+    """recorded decisions that depend on the generalised (free) terms through small terms"""
+    sel = []
+    for (a, op, b, o) in trace:
+        c = arena.cone({a, b}, stop=free)
+        if len(c) <= limit and any(x in free for x in c):
+            sel.append((a, op, b, o))
+    return sel
+
+
+def analyze_generalised(h, res, scenario, cfg, doc, arena, obs, facts, cuts, prefixes, budget, replay_dir):
+    """Obligations of a long run (optimizer loop) with generalisation points.
+
+    Equalities about the returned state are proved with the terms CUT at the generalisation points (the parameters the
+    optimizer arrived at become free variables) and with only those recorded decisions that depend on the cut
+    variables through small terms (the library's own decisions in its last update).  Inequalities are proved with the
+    whole path condition over an abstraction that forgets the inside of every maximal sum of squares (after proving
+    which of them are equal).  Dropping definitions or decisions only weakens the hypotheses, so `unsat` is a proof
+    for the real terms on this path; `sat` over an abstraction means nothing and is reported as undischarged unless
+    the concrete run itself shows the failure (facts)."""
+    cfg_label = scenario + ":" + ",".join(f"{k}={v}" for k, v in sorted(cfg.items()))
+    res.runs += 1
+    res.transitions = getattr(res, "transitions", 0) + len(doc["trace"])
+    if doc.get("concretised", 0) > 0:
+        res.tool_errors.append(f"{cfg_label}: a symbolic value was concretised {doc['concretised']} times (encoding incomplete)")
+    for (name, holds, detail) in facts:
+        res.facts_checked += 1
+        if not holds:
+            record_violation(h, res, scenario, cfg, doc, name, detail, prefixes, replay_dir, inputs=doc["vars"])
+    if doc.get("garbage_reads", 0) > 0:
+        record_violation(h, res, scenario, cfg, doc, "C10.no_garbage", f"{doc.get('garbage_reads')} reads of uninitialised scalars", prefixes, replay_dir, inputs=doc["vars"], native_confirm=False)
+    # vacuity guard: the path condition is satisfied by the recorded inputs (floating-point evaluation of the exact terms)
+    badpc, npc = _pc_holds_numerically(arena, doc)
+    if badpc:
+        res.tool_errors.append(f"{cfg_label}: {badpc} of {npc} recorded decisions do not hold at the recorded inputs (shadow rounding): path not witnessed")
+    trace = doc["trace"]
+    # ---- equalities (cut at the generalisation points)
+    todo = []
+    for ob in obs:
+        for (label, a, b) in ob["eqs"]:
+            res.obligations += 1
+            if a == -1 or b == -1:
+                continue
+            if a == b:
+                res.identical += 1
+                res.discharged += 1
+                continue
+            todo.append((ob["name"], label, a, b, ob.get("given", []), set(ob.get("cuts", []))))
+    variants = []
+    for (_n, _l, a, b, given, ocuts) in todo:
+        free = (cuts | ocuts) - {a, b}
+        roots = {a, b}
+        for (x, _op, y) in given:
+            roots.update((x, y))
+        vs = []
+        # fewer hypotheses are easier for the solvers: first only the decisions that are small terms over the free ones
+        for limit in (60, 250):
+            sel = select_decisions(arena, trace, free, limit)
+            r2 = set(roots)
+            for (x, _op, y, _o) in sel:
+                r2.update((x, y))
+            defs, ids = arena.abstract_definitions(r2, free)
+            pc = [f"(assert {arena.rel(x, op, y, o)})" for (x, op, y, o) in sel]
+            gv = [f"(assert {arena.rel(x, op, y)})" for (x, op, y) in given]
+            try:
+                ff = smt.FF(arena, ids, free=free)
+                base = ff.lines + ff.constraints_for(ids) + [f"(assert {ff.rel(x, op, y, o)})" for (x, op, y, o) in sel]
+                vs.append((f"abstract{limit}-ff", base, [f"(assert {ff.rel(x, op, y)})" for (x, op, y) in given] + [f"(assert {ff.rel(a, '!=', b)})"]))
+            except Exception:
+                pass
+            vs.append((f"abstract{limit}", defs + pc, gv + [f"(assert (not (= {arena.name(a)} {arena.name(b)})))"]))
+            nsel = len(sel)
+        variants.append(vs)
+    verdicts = solve_many_variants(variants, budget, False, res.stats)
+    for (oname, label, a, b, _g, _c), var, v in zip(todo, variants, verdicts):
+        full = f"{oname}/{label}"
+        if v.result == "unsat":
+            res.discharged += 1
+            res.nontrivial.add((arena.struct_hash(a), arena.struct_hash(b)))
+            if len(res.samples) < 8:
+                res.samples.append({"config": cfg_label, "obligation": full, "verdict": repr(v), "query": var[0][2][-1][:300],
+                                    "path_condition": f"subsets of the {len(trace)} recorded decisions (those that are small terms over the generalised ones)", "term_nodes": len(var[0][1])})
+        else:
+            # `sat` over the abstraction is not a counterexample; the concrete run is the witness if there is one
+            d64 = f64_eval(h, scenario, cfg, doc["vars"])
+            res.replays += 1
+            bad = numeric_failures(d64, [oname])
+            if bad:
+                record_violation(h, res, scenario, cfg, doc, oname, f"{label}: not provable and the native run at the recorded inputs shows lhs != rhs", prefixes, replay_dir, inputs=doc["vars"], label=label)
+            else:
+                res.undischarged.append((cfg_label, full, repr(v) + " [abstraction]"))
+    # ---- inequalities (whole path condition, sums of squares abstracted)
+    for ob in obs:
+        for (label, a, op, b) in ob.get("ineqs", []):
+            res.obligations += 1
+            full = f"{ob['name']}/{label}"
+            v = prove_ineq_sos(arena, doc, a, op, b, budget, res.stats)
+            if v.result == "unsat":
+                res.discharged += 1
+                res.nontrivial.add((arena.struct_hash(a), arena.struct_hash(b)))
+                res.samples.append({"config": cfg_label, "obligation": full, "verdict": repr(v), "query": f"(assert (not ({op} {arena.name(a)} {arena.name(b)})))",
+                                    "path_condition": f"all {len(trace)} recorded decisions of optimizer and library", "term_nodes": len(arena.cone({a, b}))})
+            else:
+                res.undischarged.append((cfg_label, full, repr(v) + " [abstraction]"))
+    return None
+
+
+def prove_ineq_sos(arena, doc, a, op, b, budget, stats):
+    trace = doc["trace"]
+    roots = {a, b}
+    for (x, _o, y, _r) in trace:
+        roots.update((x, y))
+    cone = set(arena.cone(roots))
+    nn = arena.nonneg_map()
+    parents = {}
+    for i in cone:
+        for c in arena.kids(i):
+            parents.setdefault(c, []).append(i)
+    cand = [i for i in cone if arena.nodes[i][0] == "+" and nn[i] and not any(arena.nodes[p][0] == "+" and nn[p] for p in parents.get(i, []))]
+    cand = [i for i in cand if i not in (a, b)]
+    val = arena.float_values(doc["vars"])
+    groups = []
+    for i in sorted(cand):
+        if val[i] is None:
+            continue
+        for g in groups:
+            if abs(val[g[0]] - val[i]) <= 1e-12 * max(1e-300, abs(val[i])):
+                g.append(i)
+                break
+        else:
+            groups.append([i])
+    pairs = [(g[0], j) for g in groups for j in g[1:]]
+    variants = []
+    for (x, y) in pairs:
+        ids = arena.cone({x, y})
+        cons = {}
+        defs = arena.definitions(ids, cons)
+        lines = defs + [ln for i in ids for ln in cons.get(i, [])]
+        variants.append([("plain", lines, [f"(assert (not (= {arena.name(x)} {arena.name(y)})))"])])
+    quick = Budget("quick")
+    quick.full_s = min(10, budget.full_s)
+    eqs = []
+    if variants:
+        for (x, y), v in zip(pairs, solve_many_variants(variants, quick, False, stats)):
+            if v.result == "unsat":
+                eqs.append((x, y))
+    free = set(cand)
+    defs, _ids = arena.abstract_definitions(roots, free)
+    lemmas = [f"(assert (= {arena.name(x)} {arena.name(y)}))" for (x, y) in eqs]
+    pc = [f"(assert {arena.rel(x, o, y, r)})" for (x, o, y, r) in trace]
+    goal = [f"(assert (not ({op} {arena.name(a)} {arena.name(b)})))"]
+    v, _ = smt.solve_text(defs + lemmas + pc, goal, budget.full_s, uf=False, stats=stats)
+    if v.result != "unsat":
+        # second attempt: only the decisions that are small once the sums of squares are opaque
+        small = [(x, o, y, r) for (x, o, y, r) in trace if len(arena.cone({x, y}, stop=free)) <= 60]
+        roots2 = {a, b}
+        for (x, _o, y, _r) in small:
+            roots2.update((x, y))
+        defs2, ids2 = arena.abstract_definitions(roots2, free)
+        idset = set(ids2)
+        lem2 = [f"(assert (= {arena.name(x)} {arena.name(y)}))" for (x, y) in eqs if x in idset and y in idset]
+        pc2 = [f"(assert {arena.rel(x, o, y, r)})" for (x, o, y, r) in small]
+        v2, _ = smt.solve_text(defs2 + lem2 + pc2, goal, budget.full_s, uf=False, stats=stats)
+        if v2.result == "unsat":
+            return v2
+    return v
+
+
 def analyze_run(h, res, scenario, cfg, doc, prefixes, budget, replay_dir, expect_sat=()):
     """Discharge every selected obligation of one symbolic run (= one path)."""
     arena = smt.Arena(doc["nodes"])
@@ -283,7 +471,12 @@ def analyze_run(h, res, scenario, cfg, doc, prefixes, budget, replay_dir, expect
             roots.update((a, b))
         for (a, _op, b) in ob.get("given", []):
             roots.update((a, b))
+        for (_l, a, _op, b) in ob.get("ineqs", []):
+            roots.update((a, b))
     garbage = -1 in roots
+    cuts = set(doc["out"].get("cuts", []))
+    if cuts:
+        return analyze_generalised(h, res, scenario, cfg, doc, arena, obs, facts, cuts, prefixes, budget, replay_dir)
     enc = Encoded(arena, doc, roots)
     ids, uf, pc = enc.ids, enc.uf, enc.pc
     cfg_label = scenario + ":" + ",".join(f"{k}={v}" for k, v in sorted(cfg.items()))
@@ -486,6 +679,10 @@ def explore(h, res, scenario, cfg, prefixes, budget, replay_dir):
         paths += 1
         res.paths += 1
         enc = analyze_run(h, res, scenario, cfg, doc, prefixes, budget, replay_dir)
+        if enc is None or (isinstance(cfg, dict) and cfg.get("noflip")):
+            # long runs through the optimizer loop: paths are varied through the configurations (budget, shapes, default
+            # values), not by flipping each of several hundred recorded decisions
+            continue
         arena = enc.arena
         trace = doc["trace"]
         names = var_names(arena, enc.ctx_cone)
@@ -523,7 +720,10 @@ def vacuity_twins(h, res, prop, budget, configs=None, prefixes=None):
     spec = props_r.R_PROPS[prop]
     prefixes = prefixes or spec.get("twin_prefixes") or spec["prefixes"]
     tw = props_r.twin_configs(prop)
-    for (scenario, cfg) in tw:
+    default_prefixes = prefixes
+    for entry in tw:
+        scenario, cfg = entry[0], entry[1]
+        prefixes = entry[2] if len(entry) > 2 else default_prefixes
         doc = h.run("sym", scenario, cfg)
         label = scenario + ":" + ",".join(f"{k}={v}" for k, v in sorted(cfg.items()))
         if doc.get("crash"):
@@ -531,6 +731,19 @@ def vacuity_twins(h, res, prop, budget, configs=None, prefixes=None):
             continue
         arena = smt.Arena(doc["nodes"])
         obs, _facts = select_obligations(doc, prefixes)
+        if doc["out"].get("cuts"):
+            # generalised runs: the wrong specification must end as violations that replay natively (never as proofs)
+            tmp = Result(prop)
+            analyze_generalised(h, tmp, scenario, cfg, doc, arena, obs, [], set(doc["out"]["cuts"]), prefixes, budget, os.path.join(h.run_dir, "twin-replays"))
+            for k in list(_seen_violation_keys):
+                if k[0] == scenario and dict(k[1]).get("twin"):
+                    _seen_violation_keys.discard(k)
+            res.replays += tmp.replays
+            res.vacuity.append({"config": label, "wrong_spec_obligations": tmp.obligations, "proved_although_wrong": tmp.discharged - tmp.identical,
+                                "refuted_natively": len(tmp.violations), "not_provable": len(tmp.undischarged)})
+            if not tmp.violations:
+                res.tool_errors.append(f"vacuity twin {label}: the deliberately wrong specification was not refuted")
+            continue
         roots = set()
         for ob in obs:
             for (_l, a, b) in ob["eqs"]:
